@@ -149,6 +149,8 @@ func execC16(in c16Input) c16Obs {
 			s, _ := structpb.NewStruct(map[string]interface{}{"n": v})
 			gi.AddVertex([]*gdbi.Vertex{gdbi.NewElementFromVertex(&gripql.Vertex{Gid: v, Label: "L", Data: s})})
 		}
+		// a label that extends another label: label-index terms must be delimited
+		gi.AddVertex([]*gdbi.Vertex{gdbi.NewElementFromVertex(&gripql.Vertex{Gid: "c", Label: "LL"})})
 		gi.AddEdge([]*gdbi.Edge{gdbi.NewElementFromEdge(&gripql.Edge{Gid: "e", Label: "M", From: "a", To: "ab"})})
 		gi.AddEdge([]*gdbi.Edge{gdbi.NewElementFromEdge(&gripql.Edge{Gid: "ea", Label: "M", From: "ab", To: "b"})})
 	}
@@ -266,14 +268,30 @@ func execC16(in c16Input) c16Obs {
 		}
 		replaced := id == "a" || id == "ab" || id == "b"
 		read = read && cnt == 1
-		// label index lookup finds it
-		found := false
-		for x := range gi.VertexLabelScan(ctx, label) {
-			if x == id {
-				found = true
+		// the label index finds it, and finds under every label exactly the vertices that carry that label
+		for _, lb := range []string{label, "L", "LL"} {
+			want := map[string]bool{}
+			for x := range gi.GetVertexList(ctx, false) {
+				if x.Label == lb {
+					want[x.ID] = true
+				}
+			}
+			got := map[string]bool{}
+			for x := range gi.VertexLabelScan(ctx, lb) {
+				got[x] = true
+			}
+			if !reflect.DeepEqual(want, got) {
+				read = false
 			}
 		}
-		read = read && found
+		read = read && func() bool {
+			for x := range gi.VertexLabelScan(ctx, label) {
+				if x == id {
+					return true
+				}
+			}
+			return false
+		}()
 		if got == nil {
 			return c16Obs{Accepted: true, Read: false, Others: false, Note: "accepted but GetVertex finds nothing"}
 		}
@@ -389,6 +407,13 @@ func runC16(ctx *Ctx) error {
 		drivers := []string{"badger"}
 		if ctx.Thorough() {
 			drivers = []string{"badger", "pebble"}
+		}
+		if !ctx.Thorough() {
+			for _, c := range words {
+				inputs = append(inputs, c16Input{Driver: "pebble", Kind: "vertex", ID: "nv", Label: bstr(c)},
+					c16Input{Driver: "pebble", Kind: "edge", ID: "ne", Label: bstr(c), From: "a", To: "b"},
+					c16Input{Driver: "pebble", Kind: "vertex", ID: bstr(c), Label: "L"})
+			}
 		}
 		for _, d := range drivers {
 			for i, c := range cands {
